@@ -10,7 +10,8 @@ from contracts.posix_shell import frag, has_crlf, has_char, SH_ALPHABET, real_sh
 
 import bfg9000.backends.ninja.syntax as nsyn
 import bfg9000.shell as bshell
-from bfg9000.safe_str import shell_literal, literal
+from bfg9000.safe_str import shell_literal, literal, jbos
+from contracts import fragments as FR
 from bfg9000.backends.ninja.syntax import Syntax
 
 def has_pipe_crlf(w):
@@ -115,18 +116,33 @@ def written(self_obj, buf0):
 
 
 class Write(Contract):
-    """Writer.write for one fragment: the C02 obligation for one argument string."""
+    """Writer.write for one fragment: the C02 obligation for one argument string; and, for a jbos of fragments
+    of unknown kind, the structural law that the text is the concatenation of the fragments' texts written
+    with the *same* syntax and shell_quote."""
     target = 'bfg9000/backends/ninja/syntax.py::Writer.write'
     properties = ('C02', 'C04')
 
     KINDS = ['str', 'shell_literal', 'literal']
 
     def cases(self):
-        return ['%s/%s' % (k, sx) for k in self.KINDS for sx in ('shell', 'clean', 'output', 'input')]
+        cs = ['%s/%s' % (k, sx) for k in self.KINDS for sx in ('shell', 'clean', 'output', 'input')]
+        cs += ['jbos/%s/%s' % (sx, sq) for sx in ('shell', 'clean', 'output', 'input') for sq in ('quote', 'inner', 'none')]
+        return cs
+
+    def loops(self):
+        return {('Writer.write', 1): FR.jbos_loop_invariant('ninja', self)}
 
     def case_in_property(self, case, pid):
         sx = case.split('/')[1]
         return sx in {'C02': ('shell', 'clean'), 'C04': ('output', 'input')}.get(pid, (sx,))
+
+    def result_value(self, I, a):
+        return fresh_sym('nw_escaped', 'bool')
+
+    def effects(self, I, a):
+        st = a.self.attrs['stream']
+        a.buf0 = M.sym_str(st.buf)
+        st.buf = M.mk_str(z3.Concat(M.sym_str(st.buf), T.fresh('nw_text', T.Str)))
 
     def mk_self(self, cx):
         buf0 = z3.Const('buf0', T.Str)
@@ -134,7 +150,14 @@ class Write(Contract):
         return Obj(nsyn.Writer, {'stream': PStream(Sym(buf0, 'str')), 'path_vars': None, 'shell': bshell})
 
     def params(self, cx, case):
-        kind, sx = case.split('/')
+        kind, sx = case.split('/')[:2]
+        self.cur_sq = 'quote'
+        if kind == 'jbos':
+            self.cur_sq = case.split('/')[2]
+            bits = z3.Const('bits', FR.Bits)
+            thing = Obj(jbos, {'_jbos__bits': Sym(bits, FR.BITS_TY)})
+            return {'self': self.mk_self(cx), 'thing': thing, 'syntax': Syntax[sx],
+                    'shell_quote': FR.sq_fn(self.cur_sq)}
         if kind == 'str':
             thing = cx.str('thing')
         elif kind == 'shell_literal':
@@ -147,7 +170,12 @@ class Write(Contract):
         t = a.thing
         return M.sym_str(t.attrs['string']) if isinstance(t, Obj) else M.sym_str(t)
 
+    def is_jbos(self, a):
+        return isinstance(a.thing, Obj) and a.thing.cls is jbos
+
     def requires(self, a):
+        if self.is_jbos(a):
+            return z3.BoolVal(True)
         s = self.content(a)
         if isinstance(a.thing, Obj) and a.thing.cls is literal:
             return z3.BoolVal(True)
@@ -156,6 +184,13 @@ class Write(Contract):
         return z3.Not(has_crlf(s))
 
     def ensures(self, a, r):
+        if self.is_jbos(a):
+            fns = FR.frag_fns('ninja', a.syntax, FR.sq_tag(a._d.get('shell_quote')))
+            bits = a.thing.attrs['_jbos__bits'].e
+            n = z3.Length(bits)
+            buf = M.sym_str(a.self.attrs['stream'].buf)
+            return {'text_is_concatenation_of_fragment_texts': buf == z3.Concat(a.buf0, fns.CW(bits, n)),
+                    'flag_is_disjunction_of_fragment_flags': T.zbool(M.lift(r)) == fns.OE(bits, n)}
         w = written(a.self, a.buf0)
         s = self.content(a)
         t = a.thing
@@ -169,6 +204,17 @@ class Write(Contract):
             # ninja hands `out` to sh; sh reads exactly one word fragment with content `thing`
             return {'ninja_value_is_literal': lit_ok, 'sh_reads_back_exactly_thing': frag(out, s)}
         return {'ninja_reads_value_back': T.AND(lit_ok, out == s)}
+
+    def apply_at_call(self, I, bound, site, frame):
+        thing = bound['thing']
+        if isinstance(thing, Sym) and isinstance(thing.ty, tuple) and thing.ty[0] == 'opaque':
+            # a fragment of unknown kind: its text and flag are the (uninterpreted) functions of the fragment,
+            # the syntax and the shell_quote that were passed
+            fns = FR.frag_fns('ninja', bound['syntax'], FR.sq_tag(bound.get('shell_quote')))
+            st = bound['self'].attrs['stream']
+            st.buf = M.mk_str(z3.Concat(M.sym_str(st.buf), fns.Wt(thing.e)))
+            return M.mk_bool(fns.We(thing.e))
+        return Contract.apply_at_call(self, I, bound, site, frame)
 
     def native_params(self, case):
         return ['thing'] if case.startswith('str/') else None
